@@ -554,6 +554,10 @@ func genScript(t *rapid.T) Script {
 		}
 		s.Contents = append(s.Contents, c)
 	}
+	if rapid.IntRange(0, 24).Draw(t, "huge") == 0 {
+		// content around the size at which registries commonly cap manifests
+		s.Contents[nc-1].Len = rapid.SampledFrom([]int{4<<20 - 1, 4 << 20, 4<<20 + 1, 5 << 20}).Draw(t, "hugeLen")
+	}
 	type pushed struct{ r, c int }
 	var have []pushed
 	n := rapid.IntRange(1, 25).Draw(t, "nsteps")
@@ -616,7 +620,7 @@ func genScript(t *rapid.T) Script {
 var propHist = &vt.Prop[Script]{
 	ID:   "C01",
 	Name: "IntegrityHistories",
-	Rule: "stack drawn from the grammar S ::= mem | http(S,opts) | debug(S) | select(S) | sub(S,prefix) | unify(S,mem) (depth <= 4, <= 2 hops); history of <= 25 steps over 3 repositories and 4 distinct contents (lengths 0,1,2,3, around 8 KiB, 40000; thorough also around 64 KiB / 128 KiB / 300000; NUL/0xFF/UTF-8 fragments): pushes by PushBlob, chunked writer (generated partition), raw single-POST, mount, PushManifest by tag/digest, raw manifest PUT, each truthful or with a declared digest of other content / size +-1; deletes; complete reads (GetBlob/GetManifest/GetTag/Resolve*) and GetBlobRange(o0,o1) with o0,o1 in {-1,0,1,2,len-1,len,len+1,len/2,...}; oracle = independent map (repo,digest)->bytes and own sha256: exact bytes, digest, size; range = exact slice + whole-blob descriptor, non-empty in-bounds ranges must succeed; refused pushes leave nothing retrievable; non-trivial = a push/read/range of >= 1 byte through >= 1 wrapper or hop, or a mismatching push; distinct = (stack shape, set of (push path | read kind, length class | range class))",
+	Rule: "stack drawn from the grammar S ::= mem | http(S,opts) | debug(S) | select(S) | sub(S,prefix) | unify(S,mem) (depth <= 4, <= 2 hops); history of <= 25 steps over 3 repositories and 4 distinct contents (lengths 0,1,2,3, around 8 KiB, 40000, in one history of 25 one content of 4 MiB-1 .. 5 MiB; thorough also around 64 KiB / 128 KiB / 300000; NUL/0xFF/UTF-8 fragments): pushes by PushBlob, chunked writer (generated partition), raw single-POST, mount, PushManifest by tag/digest, raw manifest PUT, each truthful or with a declared digest of other content / size +-1; deletes; complete reads (GetBlob/GetManifest/GetTag/Resolve*) and GetBlobRange(o0,o1) with o0,o1 in {-1,0,1,2,len-1,len,len+1,len/2,...}; oracle = independent map (repo,digest)->bytes and own sha256: exact bytes, digest, size; range = exact slice + whole-blob descriptor, non-empty in-bounds ranges must succeed; refused pushes leave nothing retrievable; non-trivial = a push/read/range of >= 1 byte through >= 1 wrapper or hop, or a mismatching push; distinct = (stack shape, set of (push path | read kind, length class | range class))",
 	Gen:  genScript,
 	Run:  run,
 }
